@@ -10,7 +10,13 @@ sys.path.insert(0, os.path.dirname(os.path.abspath(__file__)))
 from mutants import MUTANTS
 
 def sh(cmd, **kw):
-    return subprocess.run(cmd, shell=True, capture_output=True, text=True, **kw)
+    try:
+        return subprocess.run(cmd, shell=True, capture_output=True, text=True, timeout=kw.pop("timeout", 600), **kw)
+    except subprocess.TimeoutExpired as e:
+        subprocess.run("pkill -f target/release/cwv", shell=True)
+        class R: pass
+        r = R(); r.returncode = 124; r.stdout = "TIMEOUT"; r.stderr = ""
+        return r
 
 def restore():
     sh("git -C /repo checkout -- . && git -C /repo clean -fdq -- contracts packages")
